@@ -622,5 +622,11 @@ func Spread(v reflect.Value) (interface{}, error) {
 		}
 	}
 
+	// No members: an array without members, not a nil slice
+	// (which json.Marshal and $string render as null).
+	if results == nil && v.IsValid() {
+		results = []interface{}{}
+	}
+
 	return results, nil
 }
